@@ -74,6 +74,20 @@ func (e *Entry) parseKind(f *Field, t reflect.Type, s string) reflect.Value {
 	case "string":
 		setPtr(func(r reflect.Value) { r.SetString(string(unhex(s[1:]))) })
 	case "wire", "signature":
+		if strings.HasPrefix(s, "W[") { // segmented: every segment followed by a comma
+			w := enc.Wire{}
+			body := s[2 : len(s)-1]
+			for len(body) > 0 {
+				i := strings.IndexByte(body, ',')
+				if i < 0 {
+					break
+				}
+				w = append(w, unhex(body[:i]))
+				body = body[i+1:]
+			}
+			v.Set(reflect.ValueOf(w))
+			break
+		}
 		b := unhex(s[1:])
 		if len(b) == 0 {
 			v.Set(reflect.ValueOf(enc.Wire{}))
@@ -197,6 +211,7 @@ func RunOps(path string, w *bufio.Writer, g *Gen) error {
 			}
 			b := er.Wire.Join()
 			fmt.Fprintf(w, "E %d %d %s %s %d\n", e.Pi, e.Mi, vstr, hexOrDash(b), er.Length)
+			e.emitEW(w, p, er)
 			e.emitD(w, g, b, false, "rt:"+vstr, "rt")
 		case "D":
 			ic := fs[3] == "1"
